@@ -110,7 +110,8 @@ func c01Check(ctx *core.Ctx, kind, in string, big bool) (res c01Result) {
 		}
 		res.violated = n1 != vioCount0 || len(ctx.Res.Violations)+len(ctx.ReplayVio) != vio0
 	}()
-	ntok, _ := mon.CountTokens(in)
+	ntok := 0
+	lexOK := ctx.Call("Lexer", func() { ntok, _ = mon.CountTokens(in) })
 	hasPct := strings.Contains(in, "%")
 	for _, df := range []string{"", "df"} {
 		budget := stepBudget(len(in))
@@ -125,7 +126,7 @@ func c01Check(ctx *core.Ctx, kind, in string, big bool) (res c01Result) {
 		if ok {
 			ctx.Count("calls_Parse", 1)
 			limit := int64(4*ntok + 4)
-			if mon.Iters > limit {
+			if lexOK && mon.Iters > limit {
 				ctx.Violate("c01:iterations", "Parse(%q): %d loop iterations for %d tokens (bound %d)", in, mon.Iters, ntok, limit)
 			}
 			if ntok > 0 {
